@@ -849,6 +849,7 @@ coap_oscore_decrypt_pdu(coap_session_t *session,
   oscore_sender_ctx_t *snd_ctx = NULL;
   uint8_t rcvd_piv[sizeof(cose->partial_iv_data)];
   size_t rcvd_piv_len = 0;
+  int seq_validated = 0;
 #if COAP_CLIENT_SUPPORT
   coap_pdu_t *sent_pdu = NULL;
 #endif /* COAP_CLIENT_SUPPORT */
@@ -1255,10 +1256,13 @@ coap_oscore_decrypt_pdu(coap_session_t *session,
     } else {
       uint64_t last_seq;
 
-      if (rcp_ctx->initial_state == 0 &&
-          !oscore_validate_sender_seq(rcp_ctx, cose)) {
-        coap_log_warn("OSCORE: Replayed or old message\n");
-        goto error;
+      if (rcp_ctx->initial_state == 0) {
+        if (!oscore_validate_sender_seq(rcp_ctx, cose)) {
+          coap_log_warn("OSCORE: Replayed or old message\n");
+          goto error;
+        }
+        /* The replay window is now updated, undo that if decryption fails */
+        seq_validated = 1;
       }
       last_seq =
           coap_decode_var_bytes8(cose->partial_iv.s, cose->partial_iv.length);
@@ -1403,6 +1407,8 @@ coap_oscore_decrypt_pdu(coap_session_t *session,
       oscore_roll_back_seq(rcp_ctx);
       goto error_no_ack;
     } else {
+      if (seq_validated)
+        oscore_roll_back_seq(rcp_ctx);
       coap_handle_event_lkd(session->context,
                             COAP_EVENT_OSCORE_DECRYPTION_FAILURE,
                             session);
